@@ -4,7 +4,7 @@ proof: lean/CashewsVerif/Props/C14.lean (invariants of the four decorator models
        over all call histories with arbitrary gaps).
 tie:   generated call histories run on the real decorators through the public `Cache` facade (`mem://`) under the
        virtual clock, background refreshes completing at scheduled points, and on the model driver; compared per call
-       (a) impl == model (result, execution inside the call, refresh started, refreshes in flight) and
+       (a) impl == model (result, execution inside the call, refresh started, refreshes in flight, the instant the call returned) and
        (b) impl vs the sentences of the property evaluated on the observed outputs (harness/decor14.oracle).
 """
 from __future__ import annotations
@@ -25,8 +25,10 @@ TRUSTED = [
     "Lean 4.33.0 kernel; axioms of every theorem audited to be within {propext, Classical.choice, Quot.sound}",
     "hand-written models lean/CashewsVerif/Model/Decor/{Early,Soft,Fail,Hit}.lean of cashews/decorators/cache/{early,soft,fail,hit}.py, "
     "written over the ideal TTL map (C01 proves the in-memory backend refines it); tied to the code by this run's history correspondence",
-    "the wrapped function is a script of outcomes (success with a fresh stamped token | listed exception | unlisted exception); "
-    "foreground executions are instantaneous, background refreshes complete at explicit `done` operations",
+    "the wrapped function is a script of outcomes (success with a fresh stamped token | listed exception | unlisted exception) and of "
+    "DURATIONS: a foreground execution sleeps the scripted number of ticks on the virtual loop before it returns / raises (the model's "
+    "`.call o d`), background refreshes complete at explicit `done` operations; a call is atomic (nothing else touches its key while its "
+    "function body runs: concurrent callers are C07); the age of what a call hands out is judged at the instant the call returns",
     "harness: virtual clock and patched datetime.now (harness/vtime.py), gating of background refresh tasks, canonicalisation (harness/decor14.py)",
     "always explicit early_ttl / soft_ttl: the default ttl*0.33 is a float product outside the model",
     "the store step after a successful execution is scripted too: cfg mode=default uses the facade's default condition (store every "
@@ -71,7 +73,7 @@ def ask_model(cases_events):
     lines = []
     plan = []
     for case, events in cases_events:
-        blocks = D.model_block(case["cfg"], case["ops"])
+        blocks = D.model_block(case["cfg"], case["ops"], events)
         for arg, blines, idx in blocks:
             plan.append((len(lines), len(blines), idx))
             lines.extend(blines)
@@ -97,7 +99,8 @@ def ask_model(cases_events):
                 # an adv belongs to every argument's block; all blocks must say ok
                 if not a.startswith("model=ok"):
                     raise HarnessError(f"driver answered {a!r} to an adv line")
-                cur[opi] = "model=ok"
+                if opi is not None:          # None: the time another argument's function body took
+                    cur[opi] = "model=ok"
             else:
                 cur[opi] = a
     return out
@@ -145,6 +148,19 @@ def merge_advs(ops):
     return out
 
 
+def drop_durations(ops, fails):
+    """after ddmin: take the duration off every call that does not need one for the failure"""
+    ops = list(ops)
+    for i, l in enumerate(ops):
+        w = l.split()
+        if w[0] == "call" and len(w) == 4:
+            for shorter in (" ".join(w[:3]), " ".join(w[:3] + ["1"])):
+                if shorter != l and fails(ops[:i] + [shorter] + ops[i + 1:]):
+                    ops[i] = shorter
+                    break
+    return ops
+
+
 def shrink_problem(case, sig):
     def fails(ops):
         try:
@@ -153,7 +169,7 @@ def shrink_problem(case, sig):
             return False
         pr, _ = D.oracle(case["cfg"], ev)
         return any(s == sig for _, s, _ in pr)
-    small = ddmin(case["ops"], fails)
+    small = drop_durations(ddmin(case["ops"], fails), fails)
     merged = merge_advs(small)
     return {"cfg": case["cfg"], "ops": merged if fails(merged) else small}
 
@@ -166,7 +182,7 @@ def shrink_diff(case):
         except HarnessError:
             return False
         return diff_model(ev, ask_model([(c, ev)])[0]) is not None
-    small = ddmin(case["ops"], fails)
+    small = drop_durations(ddmin(case["ops"], fails), fails)
     merged = merge_advs(small)
     return {"cfg": case["cfg"], "ops": merged if fails(merged) else small}
 
@@ -236,6 +252,46 @@ def exhaustive_cases():
                         ops += ["call a ok", f"adv {ttl - 1}", f"call a {o}", "adv 1", f"call a {o}", "call a ok"]
                         out.append({"cfg": cfg, "ops": ops})
     out += store_step_grid()
+    out += duration_grid()
+    return out
+
+
+def duration_grid():
+    """executions that TAKE TIME, for every strategy x parameter combination x outcome: a slow first execution (the
+    deadlines count from its completion), then for each boundary B (inner ttl, hard ttl) a call that begins just below B
+    and whose function body ends just beyond / exactly at B, a body that outlasts the early lock / the inner ttl, and
+    probes just below / at the inner ttl counted from the completion (not the start) of the slow execution"""
+    out = []
+    for ttl in D.TTLS:
+        for d in ("fail", "soft", "early", "hit"):
+            if d in ("soft", "early"):
+                variants = [(inner, 0, 0, bg) for inner in D.INNERS for bg in ((0, 1) if d == "early" else (0,))]
+            elif d == "hit":
+                variants = [(0, hits, upd, bg) for hits in (1, 2) for upd in (0, 1, 2) for bg in (0, 1)]
+            else:
+                variants = [(0, 0, 0, 0)]
+            for inner, hits, upd, bg in variants:
+                cfg = {"decor": d, "ttl": ttl, "inner": inner, "hits": hits, "upd": upd, "bg": bg, "store": "plain"}
+                for o in ("ok", "lis", "unl"):
+                    for B in ((inner, ttl) if inner else (ttl,)):
+                        # begins at age B-1, ends at age B+1 | begins at B-2, ends exactly at B | begins at B-1, ends at B
+                        for gap, dur in ((B - 1, 2), (B - 2, 2), (B - 1, 1)):
+                            if gap < 0:
+                                continue
+                            ops = ["call a ok 3", f"adv {gap}", f"call a {o} {dur}", f"call a {o}", "call a lis", "call a ok 1",
+                                   f"adv {B - 1}", "call a lis", "adv 1", f"call a {o} 1"]
+                            if bg:
+                                ops += ["done a 0 ok", "call a lis"]
+                            out.append({"cfg": cfg, "ops": ops})
+                    if inner:
+                        # a body that outlasts the inner ttl (= the lifetime of the early lock) started by a call on a stale result
+                        ops = ["call a ok 2", f"adv {inner + 1}", f"call a {o} {inner + 1}", f"call a {o}", "adv 1", "call a lis 1"]
+                        if bg:
+                            ops += ["done a 0 ok", "call a lis"]
+                        out.append({"cfg": cfg, "ops": ops})
+                        # inner deadline from completion: the body takes `inner` ticks; probes at completion + inner-1 / inner / inner+1
+                        ops = [f"call a ok {inner}", f"adv {inner - 1}", "call a lis", "adv 1", "call a lis", "adv 1", f"call a {o} 1"]
+                        out.append({"cfg": cfg, "ops": ops})
     return out
 
 
@@ -288,6 +344,12 @@ def run(chk: Check) -> int:
         enum_sizes[f"{cfg['decor']} bg={cfg['bg']} hits={cfg['hits']} upd={cfg['upd']} mode=script (1..{enum_len_s} ops): "
                    f"|alphabet|={len(alphabet)}"] = len(hs)
         cases += [(f"enum-script:{cfg['decor']}:{i}", {"cfg": cfg, "ops": h}) for i, h in enumerate(hs)]
+    enum_len_d = chk.budget(4, 5)
+    for cfg, alphabet in D.ENUM_DUR:
+        hs = D.enumerate_histories(alphabet, enum_len_d)
+        enum_sizes[f"{cfg['decor']} bg={cfg['bg']} hits={cfg['hits']} upd={cfg['upd']} mode={cfg.get('mode', 'default')} executions "
+                   f"with durations (1..{enum_len_d} ops): |alphabet|={len(alphabet)}"] = len(hs)
+        cases += [(f"enum-dur:{cfg['decor']}:{i}", {"cfg": cfg, "ops": h}) for i, h in enumerate(hs)]
     decors = ["early", "soft", "fail", "hit", "early", "hit"]
     for i in range(n):
         cfg = D.gen_cfg(chk.rng, decors[i % len(decors)])
@@ -357,16 +419,22 @@ def run(chk: Check) -> int:
     chk.coverage.update({
         "evaluations": evaluations,
         "distinct_nontrivial": len(distinct),
-        "rule": "call histories (1..30 ops: call with scripted outcome ok/listed/unlisted and — for the half of the configurations with "
+        "rule": "call histories (1..30 ops: call with scripted outcome ok/listed/unlisted, about a third of the calls with a DURATION for their "
+                "function body — it sleeps that long on the virtual loop before returning / raising; aimed so that the execution ends just "
+                "below / exactly at / just beyond the inner and the hard TTL of the stored result, or outlasts the early lock — and, for the half of the configurations with "
                 "mode=script (user condition, callable ttl for failover/soft, SET-refusing middleware) — rej (the condition turns the result "
                 "down) and cL/cU/tL/tU/sL/sU (the function returns, then the condition / the callable ttl / backend.set raises a Listed / "
                 "Unlisted exception); adv; done of a background refresh with any of these outcomes; one or two "
                 "argument values) generated from VERIF_SEED over the grids ttl∈{2,10}s, early/soft∈{½,1,4}s, cache_hits∈{1,2,3}, "
                 "update_after∈{0,1,2}, background on/off, store set-up plain/purge-task/pickle; gaps aimed below / exactly at / between / "
                 "exactly at / beyond the inner and hard TTL measured from the latest store; preceded by the corpus and by a fixed "
-                "boundary-walking history for EVERY parameter combination of the grids (grid_cases, enumerated completely). A case is "
+                "boundary-walking history for EVERY parameter combination of the grids, instantaneous and with executions that take time "
+                "(grid_cases, enumerated completely). The age of what a call hands out is judged at the instant the call RETURNS. A case is "
                 "non-trivial iff it reached at least one interesting state (interesting_states_cases lists them with the number of cases: "
-                "call exactly at an inner/hard TTL, refresh started / in flight during a call / finishing after a later call / outliving "
+                "call exactly at an inner/hard TTL, an execution that took time / straddled the ttl of the stored result / outlasted the inner ttl or the "
+                "early lock, a listed failure after the result expired DURING the execution, a stale value served after a slow failure that ended "
+                "inside ttl, a result young only because its deadlines count from the completion of a slow execution, a foreground refresh that "
+                "straddles the ttl (fresh result served), refresh started / in flight during a call / finishing after a later call / outliving "
                 "its lock, failing foreground or background refresh, stale value served on a listed exception, listed failure after hard "
                 "expiry, last allowed hit, execution after cache_hits serves, refresh at update_after, a store step failing (by stage and by "
                 "exception class) with and without an older result stored, in a foreground / background refresh, a turned-down result and the "
@@ -377,12 +445,15 @@ def run(chk: Check) -> int:
         "exhaustive": True,
         "exhaustive_note": f"enumerated completely: (1) every history of 1..{enum_len} operations (starting with a call) over a boundary alphabet "
                            "(calls ok/listed[/unlisted], gaps reaching ages exactly at / between / beyond the inner and hard TTL, completion of the "
-                           "oldest refresh ok/listed) for six fixed configurations, and every history of 1..{enum_len_s} operations over six mode=script alphabets (calls whose "
+                           f"oldest refresh ok/listed) for six fixed configurations, every history of 1..{enum_len_d} operations over eight alphabets whose calls carry "
+                           "DURATIONS (a function body of 1, 2 or 5 ticks started just below the inner / hard TTL so that it ends at / beyond it; default and script mode), "
+                           f"and every history of 1..{enum_len_s} operations over six mode=script alphabets (calls whose "
                            "store step fails in the condition / callable ttl / SET, listed and unlisted, turned-down results, listed failures, gaps, "
                            "completions of a background refresh with those outcomes) (enumerated_histories gives the sizes); (2) every parameter "
                            "combination of the property's grids with a fixed boundary-walking history, and every strategy x parameter combination x way "
                            "the store step can fail (3 stages x listed/unlisted, or turned down) with nothing / a young / a stale / an expired result "
-                           "stored (grid_cases). Longer histories and the other "
+                           "stored, and every strategy x parameter combination x outcome x boundary with a slow first execution and a call whose function "
+                           "body begins just below the boundary and ends exactly at / just beyond it (grid_cases). Longer histories and the other "
                            "configurations are sampled",
         "enumerated_histories": enum_sizes,
         "cases_per_decorator": per_decor,
@@ -390,7 +461,8 @@ def run(chk: Check) -> int:
         "interesting_states_cases": dict(sorted(interesting.items())),
         "model_diffs_without_property_violation": diffs,
         "trusted_base": TRUSTED,
-        "partial": "not exhibited by the model/harness: foreground executions that take time, concurrent calls (C07), conditions that return an "
+        "partial": "not exhibited by the model/harness: anything happening to a key WHILE its function body runs (a call is atomic: concurrent callers "
+                   "are C07; a background refresh completing, an invalidation or another writer during a foreground execution), conditions that return an "
                    "exception (with_exceptions / only_exceptions: storing a failure), time_condition, a callable ttl for early (evaluated before the "
                    "execution, without the result) and for hit (unusable: the raw callable reaches backend.incr(expire=...)), store-step failures that "
                    "leave the backend half-written, the float default early/soft ttl (ttl*0.33), non-dyadic TTLs, more than two argument values, histories > 30 ops. "
